@@ -66,7 +66,7 @@ var cronHandTable = []struct {
 	{"TZ=UTC @daily", true}, {"TZ=UTC @Daily", false}, {"TZ=UTC", false},
 	{"0 0 * * mon", true}, {"0 0 * * MON", true}, {"0 0 * * Mon", true}, {" 0 0 * * mon ", true}, {"0  0 * * mon", true}, {"0\t0 * * mon", true},
 	{"0 0 1 JAN *", true}, {"0 0 * * mon-fri", true}, {"30 6 ? * 1,3", true},
-	{"0 5 * * *", true}, {"0 0 5 * * *", true}, {"0 5 * *", false}, {"0 0 0 5 * * *", false}, {"", false}, {"*/0 * * * *", false}, {"61 * * * *", false},
+	{"0 5 * * *", true}, {"0 0 5 * * *", true}, {"0 5 * *", false}, {"0 0 0 5 * * *", false}, {"", false}, {"*/0 * * * *", false}, {"*/+0 * * * *", false}, {"*/-0 * * * *", false}, {"*/+5 * * * *", true}, {"61 * * * *", false},
 }
 
 func selAccepts(sel any) bool {
